@@ -158,49 +158,94 @@ func propC08(c *Check) {
 	c.Rule("R5", "goroutine isolation: no memory reachable from captured variables is written by one errgroup closure (callees to depth 3 included) and read or written by its sibling")
 
 	maxTx, _ := constant.Int64Val(p.LookupObj("x/goat/keeper", "maxTxLen").(*types.Const).Val())
-	pp := p.MustFn("x/goat/keeper.Keeper.ProcessProposalHandler$1")
+	pp := p.returnedClosure("x/goat/keeper.Keeper.ProcessProposalHandler")
 	c.RequireFact(pp, "R1", "non-empty", lit(NE("0", "len($1.Txs)")), nil, "")
 	c.RequireFact(pp, "R1", "at-most-maxTxLen", fmt.Sprintf(`^\(len\(\$1\.Txs\) <= %d\)$|^\(len\(\$1\.Txs\) < %d\)$`, maxTx, maxTx+1), nil, "")
-	c.RequireFact(pp, "R1", "accept-after-all-txs", lit("(len($1.Txs) <= φ{(1 + @)|0})"), nil, "")
 	vcalls := p.FindCalls(pp, `^ProposalTxVerifier\.ProcessProposalVerifyTx\(`)
-	if len(vcalls) != 1 {
-		c.Violated("R1", "per-tx-verification @ "+FuncKey(pp), p.Pos(pp.Pos()), fmt.Sprintf("%d ProcessProposalVerifyTx call sites reason=not-established", len(vcalls)))
-	} else {
-		vc := vcalls[0]
+	// which transactions a verification site covers: the loop over all of Txs, the first one (Txs[0], peeled out of
+	// the loop) or the rest (a loop over Txs[1:])
+	const ctr = "φ{(1 + @)|0}"
+	type vsite struct {
+		ci    ssa.CallInstruction
+		cover string // all | first | rest
+	}
+	var sites []vsite
+	for _, vc := range vcalls {
+		a := p.argStr(vc, 0)
+		switch a {
+		case "$1.Txs[" + ctr + "]":
+			sites = append(sites, vsite{vc, "all"})
+		case "$1.Txs[0]":
+			sites = append(sites, vsite{vc, "first"})
+		case "$1.Txs[1:][" + ctr + "]":
+			sites = append(sites, vsite{vc, "rest"})
+		}
+	}
+	shape := ""
+	for _, s := range sites {
+		shape += s.cover + " "
+	}
+	switch {
+	case len(sites) == 1 && len(vcalls) == 1 && sites[0].cover == "all":
+		c.RequireFact(pp, "R1", "accept-after-all-txs", lit("(len($1.Txs) <= "+ctr+")"), nil, "")
+	case len(sites) == 2 && len(vcalls) == 2 && ((sites[0].cover == "first" && sites[1].cover == "rest") || (sites[0].cover == "rest" && sites[1].cover == "first")):
+		c.RequireFact(pp, "R1", "accept-after-all-txs", lit("(len($1.Txs[1:]) <= "+ctr+")"), nil, "")
+	default:
+		sites = nil
+		c.Violated("R1", "per-tx-verification @ "+FuncKey(pp), p.Pos(pp.Pos()), fmt.Sprintf("%d ProcessProposalVerifyTx call sites (%s): they do not cover every transaction in a recognised way reason=not-established", len(vcalls), strings.TrimSpace(shape)))
+	}
+	for _, site := range sites {
+		vc := site.ci
 		vs := p.CallStr(vc)
 		succ := successTargets(pp)
 		next := func(in ssa.Instruction) bool { return in == ssa.Instruction(vc) || succ(in) }
 		q := regexp.QuoteMeta
 		msgs := "Tx.GetMsgs(" + vs + "#0)"
-		notFirst := lit(NE("φ{(1 + @)|0}", "0"))
-		first := lit(EQ("φ{(1 + @)|0}", "0"))
-		c.requireFactFrom(pp, "R1", "tx-verified", `^\(`+q(vs)+`#1 == nil\)$`, vc, next, "next tx / ACCEPT")
-		c.requireFactFrom(pp, "R1", "first-tx-one-message", notFirst+"|"+lit(EQ("1", "len("+msgs+")")), vc, next, "next tx / ACCEPT")
-		c.requireFactFrom(pp, "R1", "first-tx-is-MsgNewEthBlock", notFirst+"|"+lit(msgs+"[0].(*goat/types.MsgNewEthBlock)#1"), vc, next, "next tx / ACCEPT")
-		c.requireFactFrom(pp, "R1", "first-tx-block-verified", notFirst+"|"+lit("(Keeper.verifyEthBlockProposal("+msgs+"[0].(*goat/types.MsgNewEthBlock)#0) == nil)"), vc, next, "next tx / ACCEPT")
-		// every message inspected: the inspection loop runs to the end, or the library search over all
-		// messages (any(msgs, · is *MsgNewEthBlock)) answered false
-		anyBlk := "any(" + msgs + ", ·.(*goat/types.MsgNewEthBlock)#1)"
-		c.requireFactFrom(pp, "R1", "later-tx-all-messages-inspected", first+"|"+lit("(len("+msgs+") <= φ{(1 + @)|0})")+"|"+lit("!"+anyBlk), vc, next, "next tx / ACCEPT")
-		// a MsgNewEthBlock in a later tx can only fail
-		bad := p.MatchEdges(pp, regexp.MustCompile(lit(msgs+"[φ{(1 + @)|0}].(*goat/types.MsgNewEthBlock)#1")+"|"+lit(anyBlk)))
-		if len(bad) == 0 {
-			c.Violated("R1", "later-tx-no-MsgNewEthBlock @ "+FuncKey(pp), p.Pos(pp.Pos()), "no type test of later messages against *MsgNewEthBlock reason=not-established")
-		} else {
-			ok := true
-			for _, e := range bad {
-				if canReachSuccessFromBlock(pp, e.Block.Succs[e.Idx]) {
-					ok = false
-					c.Violated("R1", "later-tx-no-MsgNewEthBlock @ "+FuncKey(pp), p.InstrPos(e.Block.Instrs[len(e.Block.Instrs)-1]), "a MsgNewEthBlock outside the first tx can still be accepted")
-				}
+		alt := func(skip, fact string) string {
+			if skip == "" {
+				return fact
 			}
-			if ok {
-				c.Held("R1", "later-tx-no-MsgNewEthBlock @ "+FuncKey(pp), p.InstrPos(bad[0].Block.Instrs[0]), "type test true → reject")
+			return skip + "|" + fact
+		}
+		notFirst, first := "", ""
+		if site.cover == "all" {
+			notFirst, first = lit(NE(ctr, "0")), lit(EQ(ctr, "0"))
+		}
+		tag := ""
+		if site.cover != "all" {
+			tag = "(" + site.cover + ")"
+		}
+		c.requireFactFrom(pp, "R1", "tx-verified"+tag, `^\(`+q(vs)+`#1 == nil\)$`, vc, next, "next tx / ACCEPT")
+		if site.cover != "rest" {
+			c.requireFactFrom(pp, "R1", "first-tx-one-message", alt(notFirst, lit(EQ("1", "len("+msgs+")"))), vc, next, "next tx / ACCEPT")
+			c.requireFactFrom(pp, "R1", "first-tx-is-MsgNewEthBlock", alt(notFirst, lit(msgs+"[0].(*goat/types.MsgNewEthBlock)#1")), vc, next, "next tx / ACCEPT")
+			c.requireFactFrom(pp, "R1", "first-tx-block-verified", alt(notFirst, lit("(Keeper.verifyEthBlockProposal("+msgs+"[0].(*goat/types.MsgNewEthBlock)#0) == nil)")), vc, next, "next tx / ACCEPT")
+		}
+		if site.cover != "first" {
+			// every message inspected: the inspection loop runs to the end, or the library search over all
+			// messages (any(msgs, · is *MsgNewEthBlock)) answered false
+			anyBlk := "any(" + msgs + ", ·.(*goat/types.MsgNewEthBlock)#1)"
+			c.requireFactFrom(pp, "R1", "later-tx-all-messages-inspected", alt(first, lit("(len("+msgs+") <= "+ctr+")")+"|"+lit("!"+anyBlk)), vc, next, "next tx / ACCEPT")
+			// a MsgNewEthBlock in a later tx can only fail
+			bad := p.MatchEdges(pp, regexp.MustCompile(lit(msgs+"["+ctr+"].(*goat/types.MsgNewEthBlock)#1")+"|"+lit(anyBlk)))
+			if len(bad) == 0 {
+				c.Violated("R1", "later-tx-no-MsgNewEthBlock @ "+FuncKey(pp), p.Pos(pp.Pos()), "no type test of later messages against *MsgNewEthBlock reason=not-established")
+			} else {
+				ok := true
+				for _, e := range bad {
+					if canReachSuccessFromBlock(pp, e.Block.Succs[e.Idx]) {
+						ok = false
+						c.Violated("R1", "later-tx-no-MsgNewEthBlock @ "+FuncKey(pp), p.InstrPos(e.Block.Instrs[len(e.Block.Instrs)-1]), "a MsgNewEthBlock outside the first tx can still be accepted")
+					}
+				}
+				if ok {
+					c.Held("R1", "later-tx-no-MsgNewEthBlock @ "+FuncKey(pp), p.InstrPos(bad[0].Block.Instrs[0]), "type test true → reject")
+				}
 			}
 		}
 	}
 	// R2
-	pm := p.MustFn("x/goat/keeper.Keeper.PrepareProposalHandler$1$2")
+	pm := p.closureCalling(p.returnedClosure("x/goat/keeper.Keeper.PrepareProposalHandler"), `^Mempool\.Select\(`)
 	{
 		c.touch(pm)
 		r := p.R(pm)
@@ -269,7 +314,7 @@ func propC08(c *Check) {
 	c.beginBlockKeepsProposalInputs("R7")
 
 	// R3 siblings
-	V := p.MustFn("x/goat/keeper.Keeper.verifyEthBlockProposal$1")
+	V := p.closureCalling(p.MustFn("x/goat/keeper.Keeper.verifyEthBlockProposal"), `^Keeper\.VerifyDequeue\(`)
 	N := p.MustFn("x/goat/keeper.msgServer.NewEthBlock")
 	type sib struct {
 		fn  *ssa.Function
@@ -338,7 +383,7 @@ func propC08(c *Check) {
 		c.RequireFact(P, "R4", "payload-id", lit("("+fcu+"#0.PayloadID != nil)"), nil, "")
 		c.RequireFact(P, "R4", "get-payload-error", lit("(EngineClient.GetPayloadV4(*"+fcu+"#0.PayloadID)#1 == nil)"), nil, "")
 	}
-	V2 := p.MustFn("x/goat/keeper.Keeper.verifyEthBlockProposal$2")
+	V2 := p.closureCalling(p.MustFn("x/goat/keeper.Keeper.verifyEthBlockProposal"), `^EngineClient\.NewPayloadV4\(`)
 	np := "EngineClient.NewPayloadV4(goat/types.PayloadToExecutableData(^$2.Payload), [], common.BytesToHash(^$2.Payload.BeaconRoot), ^$2.Payload.Requests)"
 	c.RequireFact(V2, "R4", "newPayload-error", lit("("+np+"#1 == nil)"), nil, "")
 	c.RequireFact(V2, "R4", "newPayload-VALID", lit("("+np+"#0.Status == engine.VALID)"), nil, "")
@@ -460,6 +505,9 @@ func oneElemThenLoopOver(v, mem string) bool {
 		first = alts[0]
 	default:
 		return false
+	}
+	if regexp.MustCompile(`^make\(\[\]\[\]byte,1,.*\)$`).MatchString(first) && balancedTop(first) {
+		return true // one pre-allocated slot (filled with the block tx), then grown by the loop
 	}
 	if !strings.HasPrefix(first, "[") || !strings.HasSuffix(first, "]") || !balancedTop(first[1:len(first)-1]) {
 		return false
